@@ -479,6 +479,21 @@ func c10(c *core.Ctx) {
 				}
 			}
 			c.Check("Save:CandidatesRanking-before-clear", "order", !late, ci.Pos(), "the vote logs are handed over before the manager drops its change logs")
+			// the ranking reads the block's own account writes: updateTop → collectUnregisters takes the accounts dyed with this block's
+			// height out of the block's account trie, so every Put of Save has happened when the ranking runs
+			colU := c.Fn("store.CBlock.collectUnregisters")
+			reads := core.CallsIn(colU, c.Method("store.AccountTrieDB", "Collect"))
+			c.Floor("collectUnregisters/reads-the-block's-account-writes", len(reads), 1)
+			puts := core.CallsIn(save, c.Method("store.AccountTrieDB", "Put"))
+			c.Floor("Save/account-Puts", len(puts), 1)
+			okOrd := len(puts) > 0
+			for _, p := range puts {
+				// no Put can still run once the ranking has run, and the ranking is not reachable without passing the loop
+				if core.ReachableAfter(ci, p) || !core.ReachableAfter(p, ci) {
+					okOrd = false
+				}
+			}
+			c.Check("Save:account-Puts≺CandidatesRanking", "order", okOrd, ci.Pos(), "the accounts of the block are in its account trie before the ranking looks there for the candidates that unregistered in this block")
 		}
 		// filterLogsByType selects by the LogType field out of the processor's log list
 		ff := c.Fn("chain/account.LogProcessor.filterLogsByType")
@@ -851,6 +866,151 @@ func c10(c *core.Ctx) {
 			}
 		}
 		c.Check("Rank:Top←ranking(topSize,candidates)", "value-flow", ok, rk.Pos(), "Rank stores exactly what ranking returned for its own arguments")
+	})
+
+	c.Run("published-list-is-ranked", func() {
+		// Every list that becomes a VoteTop.Top has the provenance "output of the total order": it is a ranking() result, an already published
+		// Top, an order-preserving filter or prefix of one, or empty. The two copy-in functions (NewVoteTop, Reset) may fill Top from their
+		// parameter; every caller must hand them such a list. A list assembled any other way (an incremental insert, a partial sort) is
+		// reported: an order that depends on how the list was reached differs between a node that followed the blocks and one that re-ranked
+		// after a restart.
+		topF := c.FieldVar("store.VoteTop", "Top")
+		ranking := c.Method("store.VoteTop", "ranking")
+		filterU := c.FuncObj("store.filterUnregisters")
+		copyIn := map[*ssa.Function]int{c.Fn("store.NewVoteTop"): 0, c.Fn("store.VoteTop.Reset"): 1}
+		var ranked func(v ssa.Value, d int) bool
+		ranked = func(v ssa.Value, d int) bool {
+			if d > 12 {
+				return false
+			}
+			switch x := v.(type) {
+			case *ssa.Call:
+				switch core.CalleeObj(x) {
+				case ranking:
+					return true
+				case filterU:
+					return ranked(x.Call.Args[0], d+1)
+				}
+				return false
+			case *ssa.UnOp:
+				if x.Op != token.MUL {
+					return false
+				}
+				if fa, ok := x.X.(*ssa.FieldAddr); ok && core.FieldOf(fa) == topF {
+					return true
+				}
+				if al, ok := x.X.(*ssa.Alloc); ok { // a local cell
+					n := 0
+					for _, r := range *al.Referrers() {
+						if st, ok := r.(*ssa.Store); ok && st.Addr == ssa.Value(al) {
+							n++
+							if !ranked(st.Val, d+1) {
+								return false
+							}
+						}
+					}
+					return n > 0
+				}
+				return false
+			case *ssa.MakeSlice:
+				k, ok := x.Len.(*ssa.Const)
+				return ok && k.Value != nil && k.Int64() == 0
+			case *ssa.Slice:
+				if al, ok := x.X.(*ssa.Alloc); ok { // make(T, 0) with constant bounds: `new [0]T` sliced
+					if arr, ok := al.Type().Underlying().(*types.Pointer).Elem().Underlying().(*types.Array); ok && arr.Len() == 0 {
+						return true
+					}
+				}
+				return x.Low == nil && ranked(x.X, d+1) // a prefix keeps the order
+			case *ssa.Phi:
+				for _, e := range x.Edges {
+					if !ranked(e, d+1) {
+						return false
+					}
+				}
+				return true
+			case *ssa.ChangeType:
+				return ranked(x.X, d+1)
+			case *ssa.Parameter:
+				pf := x.Parent()
+				fo, _ := pf.Object().(*types.Func)
+				idx := -1
+				for i, pp := range pf.Params {
+					if pp == x {
+						idx = i
+					}
+				}
+				if fo == nil || idx < 0 {
+					return false
+				}
+				_, sites := callersOf(c, fo)
+				if len(sites) == 0 {
+					return false
+				}
+				for _, cs := range sites {
+					a := cs.Instr.Common().Args
+					if cs.Instr.Common().IsInvoke() || idx >= len(a) || !ranked(a[idx], d+3) {
+						return false
+					}
+				}
+				return true
+			}
+			return false
+		}
+		nStores, nElem := 0, 0
+		seq := map[string]int{}
+		for _, fn := range c.SrcFuncs {
+			if isTestHelper(c, fn) {
+				continue
+			}
+			_, isCopyIn := copyIn[fn]
+			for _, b := range fn.Blocks {
+				for _, in := range b.Instrs {
+					st, ok := in.(*ssa.Store)
+					if !ok {
+						continue
+					}
+					name := shortFn(fn)
+					if fa, ok := st.Addr.(*ssa.FieldAddr); ok && core.FieldOf(fa) == topF {
+						nStores++
+						if isCopyIn {
+							continue
+						}
+						seq[name]++
+						c.Check("Top-store@"+name+seqSuffix(seq[name]), "value-flow", ranked(st.Val, 0), st.Pos(), "the list %s stores into VoteTop.Top is a ranking() result, a published Top, an order-preserving filter/prefix of one, or empty", name)
+						continue
+					}
+					if ia, ok := st.Addr.(*ssa.IndexAddr); ok {
+						if ld, ok := ia.X.(*ssa.UnOp); ok && ld.Op == token.MUL {
+							if fa, ok := ld.X.(*ssa.FieldAddr); ok && core.FieldOf(fa) == topF {
+								nElem++
+								c.Check("Top-element-store@"+name, "value-flow", isCopyIn, st.Pos(), "%s overwrites an element of a published VoteTop.Top in place; only the copy-in functions NewVoteTop and Reset fill the list", name)
+							}
+						}
+					}
+				}
+			}
+		}
+		c.Floor("Top-stores", nStores, 6)
+		c.Floor("Top-element-stores", nElem, 2)
+		var cis []*ssa.Function
+		for f := range copyIn {
+			cis = append(cis, f)
+		}
+		sort.Slice(cis, func(i, j int) bool { return cis[i].String() < cis[j].String() })
+		for _, f := range cis {
+			fo := f.Object().(*types.Func)
+			_, sites := callersOf(c, fo)
+			k := map[string]int{}
+			for _, cs := range sites {
+				a := cs.Instr.Common().Args
+				name := shortFn(cs.Caller)
+				k[name]++
+				ok := !cs.Instr.Common().IsInvoke() && copyIn[f] < len(a) && ranked(a[copyIn[f]], 0)
+				c.Check(shortFn(f)+"←ranked-list@"+name+seqSuffix(k[name]), "value-flow", ok, cs.Instr.Pos(), "%s hands %s a list with the provenance of the total order", name, shortFn(f))
+			}
+			c.Floor(shortFn(f)+"/callers", len(sites), 1)
+		}
 	})
 
 	// ------------------------------------------------------------------------------------------------------------------
